@@ -95,3 +95,13 @@ package meta
 //@   requires p != nil && p.regex != nil
 //@   assigns nothing
 //@   ensures result == (rematch(p.regex, s) != p.inverted)
+
+// ---- schema lookups used by the data layer (abstracted here: deterministic, no heap effects) -------------
+//@ func Find(p Meta, path string) Definition
+//@   trusted
+//@   assigns nothing
+//@   ensures result != nil ==> solid(result)
+//@ func OriginalModule(m Meta) *Module
+//@   trusted
+//@   assigns nothing
+//@   ensures result != nil
